@@ -139,7 +139,7 @@ class Run:
             for i in range(n):
                 cases.append(eng.gen(C.Rng(self.seed, eng.name, i), self.tier))
             t1 = time.time()
-            impl = C.run_lines(impl_exes[eng.exe], cases, shards=shards, per_shard=getattr(eng, 'per_shard', 50))
+            impl = C.run_lines(impl_exes[eng.exe], cases, shards=shards, per_shard=getattr(eng, 'per_shard', 50), mem_gb=getattr(eng, 'mem_gb', None))
             t2 = time.time()
             mod = impl if getattr(eng, "model_free", False) else \
                 C.run_lines(models[eng.exe], [eng.model_input(c, a) for c, a in zip(cases, impl)], shards=shards)
@@ -184,7 +184,7 @@ class Run:
         return mism
 
     def run_one(self, eng, line):
-        a = C.run_lines(self._impl_exes[eng.exe], [line], shards=1)[0]
+        a = C.run_lines(self._impl_exes[eng.exe], [line], shards=1, mem_gb=getattr(eng, 'mem_gb', None))[0]
         if getattr(eng, "model_free", False):
             return eng.canon(a), eng.canon(a)
         b = C.run_lines(self._models[eng.exe], [eng.model_input(line, a)], shards=1)[0]
@@ -211,13 +211,13 @@ class Run:
 
         def test(o):
             line = eng.join(hdr, o)
-            a = eng.canon(C.run_lines(self._impl_exes[eng.exe], [line], shards=1)[0])
+            a = eng.canon(C.run_lines(self._impl_exes[eng.exe], [line], shards=1, mem_gb=getattr(eng, 'mem_gb', None))[0])
             return any(c == clause for c, _ in eng.monitor(line, a))
 
         if len(ops) <= 400:
             ops = ddmin(ops, test)
         line = eng.join(hdr, ops)
-        a = eng.canon(C.run_lines(self._impl_exes[eng.exe], [line], shards=1)[0])
+        a = eng.canon(C.run_lines(self._impl_exes[eng.exe], [line], shards=1, mem_gb=getattr(eng, 'mem_gb', None))[0])
         det = [d for c, d in eng.monitor(line, a) if c == clause]
         return {"engine": eng, "case": line, "impl": a, "clause": clause, "detail": det[0] if det else hit["detail"]}
 
@@ -351,7 +351,7 @@ def standard(prop, tier, seed, engines, assumptions, known_witnesses=None, extra
         if not w:
             continue
         eng, line, clause = w
-        a = eng.canon(C.run_lines(r._impl_exes[eng.exe], [line], shards=1)[0])
+        a = eng.canon(C.run_lines(r._impl_exes[eng.exe], [line], shards=1, mem_gb=getattr(eng, 'mem_gb', None))[0])
         if any(c == clause for c, _ in eng.monitor(line, a)):
             r.known_lines.append("KNOWN-FINDING: property=%s id=%s %s" % (prop, k["id"], k["what"]))
             r.cov.setdefault("known_findings_replayed", []).append({"id": k["id"], "witness": line, "impl_output": a})
